@@ -618,3 +618,270 @@ Print Assumptions C10_tree_member_refines.
 Print Assumptions C10_tree_class_chain_single.
 Print Assumptions C10_tree_plain_resolve.
 Print Assumptions C10_tables_from_tree_modes_agree.
+
+(* ---- from one document to a WORKSPACE of documents, at tree level (Model/WsTree.v) ----
+   A workspace is a list of (file stem, real syntax tree).  WsTree.wdefinition ws a p: get_definition
+   on document number a at position p by a fresh ProjectManager -- the tables of Model/Annot.v built
+   from every tree (document a in the full mode, the others definitions-only), linked as handle_class
+   links them (class_uri_map look-up by upper-cased stem, missing parent, `Parent class cannot be
+   itself`, the cycle guard is_own_table_reachable_from), then the `uses` loop.  Tied to the code by
+   the differential stage `wstree` of checks/c10.py (every identifier position of every file).
+   absws ws = map entity_of_tree over the documents: an abstract Scoping.workspace, to which
+   C10_plain, C10_member ... above apply.
+   Hypotheses: ws_ok (every tree regular, every file called like its header ignoring case, only class
+   nodes carry a parent token -- true of every dumped tree), ws_acyclic (no lineage walk of the
+   annotators comes back to a document already on it; with the cycle guard the code's chain is then
+   CUT, Scoping.lineage instead walks round until its fuel ends: C10_ws_cycle_guard), distinct_stems.
+   All three are decidable (C10_ws_hypotheses_decidable). *)
+From GoldV Require Import WsTree WsTreeProofs WsTreeWitness.
+
+(* the class index of the documents is Scoping.find_entity of the abstract workspace *)
+Theorem C10_ws_class_index :
+  forall ws name, ws_ok ws ->
+    match find_doc ws name with
+    | Some (j, d) => find_entity (absws ws) name = Some (ent d) /\ nth_error ws j = Some d
+    | None => find_entity (absws ws) name = None
+    end.
+Proof. exact find_doc_corr. Qed.
+
+(* the documents the annotators' walk visits from class c are the entities of Scoping.lineage, in
+   order: neither walk runs out of fuel (the visited documents are pairwise different) *)
+Theorem C10_ws_lineage_refines :
+  forall ws c i d path, ws_ok ws ->
+    find_doc ws c = Some (i, d) -> lineage_t ws i = Ans (false, path) ->
+    exists ds, Forall2 (fun j x => nth_error ws j = Some x) path ds /\ lineage (absws ws) c = map ent ds.
+Proof. exact lineage_refines. Qed.
+
+(* the chain of root tables linked for class c (as the session of document a holds them) IS
+   Scoping.class_chain, table by table: same symbols (name, symbol type) in the same order, same
+   for_class_or_module *)
+Theorem C10_ws_class_chain_refines :
+  forall ws a c i d path, ws_ok ws ->
+    find_doc ws c = Some (i, d) -> lineage_t ws i = Ans (false, path) ->
+    Forall2 (fun T S => (map aview (t_syms T) = map sview (syms S) /\ cls_str T = cls S) /\ t_cls T <> None /\
+                        exists c0 l, S = build c0 l)
+            (tables_along ws a path) (class_chain (absws ws) c).
+Proof. exact ws_class_chain_refines. Qed.
+
+(* the chain a position in the k-th method of document a sees -- [method table; root table;
+   ancestors' root tables ...] -- is Scoping.scope_chain *)
+Theorem C10_ws_scope_chain_refines :
+  forall ws a d k mt, ws_ok ws -> ws_acyclic ws -> distinct_stems ws = true ->
+    nth_error ws a = Some d -> nth_error (method_tables_of false (snd d)) k = Some mt ->
+    exists me path, nth_error (e_methods (ent d)) k = Some me /\ lineage_t ws a = Ans (false, path) /\
+      own_chain ws a = Ans (tables_along ws a path) /\
+      (exists rest, tables_along ws a path = root_table_of false (snd d) :: rest) /\
+      t_uses mt = e_uses (ent d) /\
+      find_entity (absws ws) (fst d) = Some (ent d) /\
+      Forall2 same_tableB (tree_chain ws a mt path) (abs_chain_ws ws d me) /\
+      (find_method (ent d) (me_name me) = Some me ->
+       scope_chain (absws ws) (fst d) (Some (me_name me)) = abs_chain_ws ws d me).
+Proof. exact ws_scope_chain_refines. Qed.
+
+(* a plain identifier: the tree-level look-up (chain, then the `uses` loop: first used entity whose
+   table or its ancestors' know the name, unknown entities skipped) and Scoping.search_w_class select
+   the same declaration -- the same table of the chain (hit_at) or of the used entity's chain
+   (uses_hit), the same position in it -- or both nothing *)
+Theorem C10_ws_plain_refines :
+  forall ws a d k mt id, ws_ok ws -> ws_acyclic ws -> distinct_stems ws = true ->
+    nth_error ws a = Some d -> nth_error (method_tables_of false (snd d)) k = Some mt ->
+    exists me path, nth_error (e_methods (ent d)) k = Some me /\ lineage_t ws a = Ans (false, path) /\
+      (find_method (ent d) (me_name me) = Some me ->
+       match search_w_class (absws ws) (fst d) (Some (me_name me)) true id with
+       | Some p =>
+           exists h, wsearch ws a (tree_chain ws a mt path) id = Ans (Some h) /\
+             (hit_at (tree_chain ws a mt path) (scope_chain (absws ws) (fst d) (Some (me_name me))) h p \/
+              uses_hit ws a (e_uses (ent d)) h p)
+       | None => wsearch ws a (tree_chain ws a mt path) id = Ans None
+       end).
+Proof. exact ws_plain_refines. Qed.
+
+(* C10_plain on real trees: the declaration the scoping rules make visible is the one found, the link
+   goes to the file of the declaring entity with that declaration's selection range; nothing visible:
+   no link.  The guards are those of C10_plain (listed finding sem-uses-exposes-all). *)
+Theorem C10_ws_plain :
+  forall ws a d k mt id, ws_ok ws -> ws_acyclic ws -> distinct_stems ws = true ->
+    nth_error ws a = Some d -> nth_error (method_tables_of false (snd d)) k = Some mt ->
+    exists me path, nth_error (e_methods (ent d)) k = Some me /\ lineage_t ws a = Ans (false, path) /\
+      (find_method (ent d) (me_name me) = Some me ->
+       special (absws ws) id = false -> uses_clean (absws ws) (fst d) id ->
+       let chT := tree_chain ws a mt path in
+       match visible (absws ws) (fst d) (Some (me_name me)) id with
+       | Some (kc, tag) =>
+           exists h y, wsearch ws a chT id = Ans (Some h) /\ dtag y = tag /\
+             (hit_at chT (scope_chain (absws ws) (fst d) (Some (me_name me))) h (kc, y) \/
+              uses_hit ws a (e_uses (ent d)) h (kc, y)) /\
+             wdef_single ws a chT (Some id) =
+               Ans (match find_doc ws kc with
+                    | Some (_, dt) => [(fst dt, a_sel (snd h), a_range (snd h))]
+                    | None => []
+                    end)
+       | None => wsearch ws a chT id = Ans None /\ wdef_single ws a chT (Some id) = Ans []
+       end).
+Proof. exact ws_plain_visible. Qed.
+
+(* the chain generate_right_hand_of_entity searches after `<entity>.` is Scoping.member_chain *)
+Theorem C10_ws_entity_chain_refines :
+  forall ws a d k mt en, ws_ok ws -> ws_acyclic ws -> distinct_stems ws = true ->
+    nth_error ws a = Some d -> nth_error (method_tables_of false (snd d)) k = Some mt ->
+    exists me path, nth_error (e_methods (ent d)) k = Some me /\ lineage_t ws a = Ans (false, path) /\
+      (find_method (ent d) (me_name me) = Some me ->
+       let chM := member_chain (absws ws) (fst d) (Some (me_name me)) en in
+       match find_doc ws en with
+       | None => entity_chain ws a (tree_chain ws a mt path) en = Ans None /\ chM = []
+       | Some _ => exists chE, entity_chain ws a (tree_chain ws a mt path) en = Ans (Some chE) /\ Forall2 same_tableB chE chM
+       end).
+Proof. exact ws_entity_chain_refines. Qed.
+
+(* generate_loc_link_all on corresponding chains: one hit per declaring table, the same declarations *)
+Theorem C10_ws_member_refines :
+  forall chT chS id, Forall2 same_tableB chT chS ->
+    Forall2 (hit_at chT chS) (lookup_all chT id) (search_all chS id).
+Proof. exact ws_member_refines. Qed.
+
+(* C10_member / C10_member_in_context on real trees *)
+Theorem C10_ws_member :
+  forall ws a d k mt en id, ws_ok ws -> ws_acyclic ws -> distinct_stems ws = true ->
+    nth_error ws a = Some d -> nth_error (method_tables_of false (snd d)) k = Some mt ->
+    exists me path, nth_error (e_methods (ent d)) k = Some me /\ lineage_t ws a = Ans (false, path) /\
+      (find_method (ent d) (me_name me) = Some me -> special (absws ws) id = false ->
+       match entity_chain ws a (tree_chain ws a mt path) en with
+       | Ans (Some chE) =>
+           Forall2 (fun h t => exists y, dtag y = snd t /\
+                      hit_at chE (member_chain (absws ws) (fst d) (Some (me_name me)) en) h (fst t, y))
+                   (lookup_all chE id) (members_all (absws ws) en id)
+       | Ans None => members_all (absws ws) en id = []
+       | Outside => False
+       end).
+Proof. exact ws_member_all. Qed.
+
+(* where wdefinition takes which branch *)
+Theorem C10_ws_plain_case :
+  forall ws a stem t p idx enc pi q up full,
+    distinct_stems ws = true -> nth_error ws a = Some (stem, t) -> flat_methods t = true ->
+    full_chain ws a t (descend p t) = Ans full -> path_up p t = (idx, enc) :: (pi, q) :: up ->
+    is_dot q = false -> (is_method_node q && Nat.eqb idx 0) = false -> is_member_decl enc = false ->
+    wdefinition ws a p = wdef_single ws a full (get_id enc p).
+Proof. exact wdefinition_plain_case. Qed.
+
+Theorem C10_ws_member_case :
+  forall ws a stem t p i enc pi q up full lft en,
+    distinct_stems ws = true -> nth_error ws a = Some (stem, t) -> flat_methods t = true ->
+    full_chain ws a t (descend p t) = Ans full -> path_up p t = (S i, enc) :: (pi, q) :: up ->
+    is_dot q = true -> first_child q = Some lft -> own_entity t lft = Some en -> in_method (descend p t) = true ->
+    wdefinition ws a p =
+    match entity_chain ws a full en with
+    | Outside => Outside
+    | Ans None => Ans []
+    | Ans (Some ch) => Ans (wdef_all ws ch (get_id enc p))
+    end.
+Proof. exact wdefinition_member_case. Qed.
+
+Theorem C10_ws_declared_name_case :
+  forall ws a stem t p idx enc pi q up full,
+    distinct_stems ws = true -> nth_error ws a = Some (stem, t) -> flat_methods t = true ->
+    full_chain ws a t (descend p t) = Ans full -> path_up p t = (idx, enc) :: (pi, q) :: up -> is_dot q = false ->
+    (is_method_node q = true -> idx = O -> wdefinition ws a p = Ans (wdef_all ws (class_level_t full) (get_id enc p))) /\
+    ((is_method_node q && Nat.eqb idx 0) = false -> is_member_decl enc = true ->
+       wdefinition ws a p = Ans (wdef_all ws full (get_id enc p))).
+Proof. exact wdefinition_declared_name_case. Qed.
+
+Theorem C10_ws_full_chain :
+  forall ws a d steps mt path,
+    nth_error ws a = Some d -> chain_for (snd d) steps = Some [mt; root_table_of false (snd d)] ->
+    own_chain ws a = Ans (tables_along ws a path) ->
+    (exists rest, tables_along ws a path = root_table_of false (snd d) :: rest) ->
+    full_chain ws a (snd d) steps = Ans (tree_chain ws a mt path).
+Proof. exact full_chain_method. Qed.
+
+Theorem C10_ws_hypotheses_decidable :
+  forall ws, (ws_okb ws = true -> ws_ok ws) /\ (ws_acyclicb ws = true -> ws_acyclic ws).
+Proof. intro ws. split; [apply ws_okb_ok|apply ws_acyclicb_ok]. Qed.
+
+(* non-vacuity, on the real parser's trees of
+   aChild.god  class aChild (aParent) / uses aLib / fc : int4 / proc Run(p : int4) / var l : int4 /
+               l = p + fc + fp + cLib / self.fp = l / self.Base / endproc / proc Base / endproc
+   aParent.god class aParent / const cP = 2 / fp : int4 / proc Base / fp = 1 / endproc
+   aLib.god    module aLib / const cLib = 1 *)
+Example C10_ws_nonvacuous :
+  ws_ok wsx /\ ws_acyclic wsx /\ distinct_stems wsx = true /\ lineage_t wsx 0 = Ans (false, [0; 1]%nat) /\
+  wdefinition wsx 0 (mkPos 5 14) = Ans [(wx_aParent, wrg 2 0 2 2, wrg 2 0 2 9)] /\      (* fp -> the PARENT's field *)
+  wdefinition wsx 0 (mkPos 5 19) = Ans [(wx_aLib, wrg 1 6 1 10, wrg 1 0 1 14)] /\       (* cLib -> the USED module's constant *)
+  wdefinition wsx 0 (mkPos 6 6) = Ans [(wx_aParent, wrg 2 0 2 2, wrg 2 0 2 9)] /\       (* self.fp *)
+  wdefinition wsx 0 (mkPos 7 6) = Ans [(wx_aChild, wrg 9 5 9 9, wrg 9 0 10 7); (wx_aParent, wrg 3 5 3 9, wrg 3 0 5 7)] /\  (* self.Base: own, then inherited *)
+  wdefinition wsx 0 (mkPos 0 14) = Ans [(wx_aParent, wrg 0 6 0 13, wrg 0 0 0 13)] /\    (* the parent class in the header *)
+  resolve_plain (absws wsx) wx_aChild (Some wx_Run) wx_fp = Some (wx_aParent, 2) /\
+  resolve_plain (absws wsx) wx_aChild (Some wx_Run) wx_cLib = Some (wx_aLib, 1) /\
+  definition_member (absws wsx) wx_aChild (Some wx_Run) wx_aChild wx_Base = [(wx_aChild, 3); (wx_aParent, 3)].
+Proof.
+  destruct wsx_facts as (H1 & H2 & H3 & H4 & H5 & H6 & H7 & H8 & H9 & _ & _ & H12 & H13 & H14 & _).
+  split; [apply ws_okb_ok; exact H1|]. split; [apply ws_acyclicb_ok; exact H2|]. repeat split; assumption.
+Qed.
+
+(* the cycle guard (aChild (aParent), aParent (aChild)): the requested document stays parent-less, its
+   parent's field is not visible; Scoping.lineage walks round the cycle until its fuel ends -- the
+   hypothesis ws_acyclic is needed, and fails here *)
+Theorem C10_ws_cycle_guard :
+  ws_ok wsx_cyc /\ ws_acyclicb wsx_cyc = false /\
+  lineage_t wsx_cyc 0 = Ans (true, [0]%nat) /\ lineage_t wsx_cyc 1 = Ans (true, [1]%nat) /\
+  wdefinition wsx_cyc 0 (mkPos 5 14) = Ans [] /\
+  wdefinition wsx_cyc 0 (mkPos 5 9) = Ans [(wx_aChild, wrg 2 0 2 2, wrg 2 0 2 9)] /\
+  length (lineage (absws wsx_cyc) wx_aChild) = 3%nat.
+Proof.
+  destruct wsx_cyc_facts as (H1 & H2 & H3 & H4 & H5 & H6 & H7).
+  split; [apply ws_okb_ok; exact H1|]. repeat split; assumption.
+Qed.
+
+Print Assumptions C10_ws_class_index.
+Print Assumptions C10_ws_lineage_refines.
+Print Assumptions C10_ws_class_chain_refines.
+Print Assumptions C10_ws_scope_chain_refines.
+Print Assumptions C10_ws_plain_refines.
+Print Assumptions C10_ws_plain.
+Print Assumptions C10_ws_entity_chain_refines.
+Print Assumptions C10_ws_member_refines.
+Print Assumptions C10_ws_member.
+Print Assumptions C10_ws_plain_case.
+Print Assumptions C10_ws_member_case.
+Print Assumptions C10_ws_declared_name_case.
+Print Assumptions C10_ws_full_chain.
+Print Assumptions C10_ws_hypotheses_decidable.
+Print Assumptions C10_ws_nonvacuous.
+Print Assumptions C10_ws_cycle_guard.
+
+(* a typed operand before the dot (WsTree.typed_entity: the name of another indexed class / module; a
+   variable, parameter or own / inherited field whose declared type is native, an indexed class, `refto`
+   one, or `listof`): the answer is the all-declarations look-up on the chain of the operand's class,
+   to which C10_ws_entity_chain_refines / C10_ws_member apply.  PARTIAL: that typed_entity is
+   Scoping.static_class of the one-element prefix is tied to the code by the differential run only. *)
+Theorem C10_ws_typed_member_case :
+  forall ws a stem t p i enc pi q up full lft,
+    distinct_stems ws = true -> nth_error ws a = Some (stem, t) -> flat_methods t = true ->
+    full_chain ws a t (descend p t) = Ans full -> path_up p t = (S i, enc) :: (pi, q) :: up ->
+    is_dot q = true -> first_child q = Some lft -> own_entity t lft = None ->
+    wdefinition ws a p =
+    match typed_entity ws a t (descend p t) lft with
+    | Outside => Outside
+    | Ans None => Ans []
+    | Ans (Some en) =>
+        match entity_chain ws a full en with
+        | Outside => Outside
+        | Ans None => Ans []
+        | Ans (Some ch) => Ans (wdef_all ws ch (get_id enc p))
+        end
+    end.
+Proof. exact wdefinition_typed_member_case. Qed.
+
+(* non-vacuity: a fourth file  aUser.god  class aUser / proc Go(q : aChild) / q.fc = 1 / aLib.cLib / endproc *)
+Example C10_ws_typed_nonvacuous :
+  ws_ok wsx2 /\ ws_acyclic wsx2 /\ distinct_stems wsx2 = true /\
+  wdefinition wsx2 3 (mkPos 2 3) = Ans [(wx_aChild, wrg 2 0 2 2, wrg 2 0 2 9)] /\       (* q.fc, q : aChild *)
+  wdefinition wsx2 3 (mkPos 3 6) = Ans [(wx_aLib, wrg 1 6 1 10, wrg 1 0 1 14)] /\       (* aLib.cLib *)
+  definition_member (absws wsx2) wx_aUser (Some [71;111]) wx_aChild [102;99] = [(wx_aChild, 1)].
+Proof.
+  destruct wsx2_facts as (H1 & H2 & H3 & H4 & _ & H6 & H7 & _).
+  split; [apply ws_okb_ok; exact H1|]. split; [apply ws_acyclicb_ok; exact H2|]. repeat split; assumption.
+Qed.
+
+Print Assumptions C10_ws_typed_member_case.
+Print Assumptions C10_ws_typed_nonvacuous.
